@@ -434,6 +434,9 @@ def progfuzz(prop, tier, seed, replay=None):
         if pr.returncode == 3:
             return dict(replay=True, failed=True, detail=dict(replayed=1, failed=1, signature="%s:deadlock" % prop,
                                                               failures=[dict(kind="deadlock", what="the replayed case deadlocks again")]))
+        if pr.returncode == 4:
+            return dict(replay=True, failed=True, detail=dict(replayed=1, failed=1, signature="%s:divergence" % prop,
+                                                              failures=[dict(kind="divergence", what="the replayed case does not terminate again")]))
         if pr.returncode == 1:
             r = json.load(open(res_path))
             return dict(replay=True, failed=True, detail=r)
@@ -464,8 +467,8 @@ def progfuzz(prop, tier, seed, replay=None):
             extra = {k: str(v) for k, v in pc.items()}
             pr = sh([exe, "--prop", prop, "--tier", tier, "--seed", str(seed),
                      "--cases", str(tcfg["cases"]), "--out", res_path], check=False, extra_env=extra)
-            dl_path = res_path + ".deadlock.json"
-            if pr.returncode == 3 and os.path.exists(dl_path):
+            dl_path = res_path + (".divergence.json" if pr.returncode == 4 else ".deadlock.json")
+            if pr.returncode in (3, 4) and os.path.exists(dl_path):
                 # every thread of the runner was blocked for >= 10 s with a case outstanding: deadlock in the code under test
                 dl = json.load(open(dl_path))
                 bases = dl.get("bases") or []
@@ -476,11 +479,13 @@ def progfuzz(prop, tier, seed, replay=None):
                     mem = dict(members=[], program_text="")
                 v = dict(property=prop, base=(bases or ["?"])[0], seed=seed, program_text=mem["program_text"], ref_ast="",
                          input=json.loads(dl.get("input") or "{}"), input_text="process config %s\n%s" % (pc, (dl.get("ops") or dl.get("input") or "")[:3000]),
-                         failures=[dict(variant="?", entry="?", pool=None, perturb_seed=0, kind="deadlock", mismatches=[],
-                                        panic_msg="run() did not return: no progress for %ss and no thread of the process consumed CPU time (%s idle windows of 5 s)"
-                                        % (dl.get("no_progress_s"), dl.get("idle_cpu_windows_of_5s")))],
-                         signature="%s:deadlock" % prop, shrunk=False, entries=[], members=mem["members"], ops=dl.get("ops"), proc_config=pc)
-                results.append(dict(evaluations=1, runs=1, nontrivial=0, too_big=0, distribution={"deadlocked_runner_processes": 1},
+                         failures=[dict(variant="?", entry="?", pool=None, perturb_seed=0, kind="deadlock" if pr.returncode == 3 else "divergence", mismatches=[],
+                                        panic_msg=("run() did not return: no progress for %ss and no thread of the process consumed CPU time (%s idle windows of 5 s)"
+                                                   % (dl.get("no_progress_s"), dl.get("idle_cpu_windows_of_5s"))) if pr.returncode == 3 else
+                                                  ("run() did not return: no progress for %ss while the process consumed %ss of CPU on a case the bounded reference evaluator finished"
+                                                   % (dl.get("no_progress_s"), dl.get("cpu_seconds_since_progress"))))],
+                         signature="%s:%s" % (prop, "deadlock" if pr.returncode == 3 else "divergence"), shrunk=False, entries=[], members=mem["members"], ops=dl.get("ops"), proc_config=pc)
+                results.append(dict(evaluations=1, runs=1, nontrivial=0, too_big=0, distribution={("deadlocked_runner_processes" if pr.returncode == 3 else "diverging_runner_processes"): 1},
                                     samples=[dict(deadlocked_case=(dl.get("ops") or dl.get("input") or "")[:2000], process_config=pc)],
                                     violations=[v], infra_errors=[], known=[]))
                 continue
